@@ -4,6 +4,7 @@
 From Coq Require Import List NArith ZArith Bool Arith Permutation String.
 Import ListNotations.
 Require Import Scan Parse Construct Represent SortLemmas.
+Require SortNum.
 
 (* KIND C16_sort_is_permutation_invariant : U *)
 (* generic: insertion sort over ANY strict total order on the elements returns the same list for every permutation of a duplicate-free input *)
@@ -30,6 +31,25 @@ Example C16_nonvacuous :
   py_sorted [(PStr [98]%N, PInt 1); (PStr [97]%N, PInt 2)] = Some [(PStr [97]%N, PInt 2); (PStr [98]%N, PInt 1)].
 Proof. vm_compute. split; reflexivity. Qed.
 
-(* PARTIAL: numeric / date keys, order_preserved without sort_keys, anchors_function_of_document and the dump fixed point are not proved;
+(* KIND C16_number_keyed_mapping_order_independent : U *)
+(* the same for a mapping (or set) whose keys are NUMBERS - int, bool and finite float, mixed freely - pairwise different under Python's ==
+   (as the keys of one dict always are): the order Python's < gives them (exact rational comparison in the model) does not depend on the
+   insertion / iteration order *)
+Theorem C16_number_keyed_mapping_order_independent : forall l1 l2 : list (val * val),
+  forallb SortNum.is_num l1 = true -> NoDup l1 -> (forall a b, In a l1 -> In b l1 -> a <> b -> key_eqb (fst a) (fst b) = false) ->
+  Permutation l1 l2 -> py_sorted l1 = py_sorted l2.
+Proof. exact SortNum.l_sorted_num_keys_perm_invariant. Qed.
+Eval vm_compute in "ASSUME:C16_number_keyed_mapping_order_independent"%string. Print Assumptions C16_number_keyed_mapping_order_independent.
+
+(* KIND C16_number_keys_nonvacuous : F *)
+(* {3, True, 2.5, -7} in two insertion orders: both sort to [-7; True; 2.5; 3] *)
+Example C16_number_keys_nonvacuous :
+  let l1 := [(PInt 3, PNone); (PBool true, PNone); (PFloat (FFin false 5 (-1)), PNone); (PInt (-7), PNone)] in
+  let l2 := [(PInt (-7), PNone); (PFloat (FFin false 5 (-1)), PNone); (PInt 3, PNone); (PBool true, PNone)] in
+  forallb SortNum.is_num l1 = true /\ py_sorted l1 = py_sorted l2 /\
+  py_sorted l1 = Some [(PInt (-7), PNone); (PBool true, PNone); (PFloat (FFin false 5 (-1)), PNone); (PInt 3, PNone)].
+Proof. exact SortNum.num_keys_example. Qed.
+
+(* PARTIAL: bytes / date keys and mixed-type key sets, order_preserved without sort_keys, anchors_function_of_document and the dump fixed point are not proved;
    they are decided by the represent/serialize/emit correspondence and the direct run (permuted insertion orders, several PYTHONHASHSEEDs,
    dump(load(dump x)) = dump x). *)
